@@ -1102,6 +1102,10 @@ class Interp:
                 yield BuiltinV("noop"), st
             elif attr in ("ref", "copyref"):
                 yield BuiltinV("model.Parameter.ref", ov), st
+            elif attr in ("node_inputs", "subgraph"):
+                yield BuiltinV("model.TorchParameter." + attr, ov), st
+            elif attr == "outputs" and isinstance(h.get("op"), ObjV):
+                yield TupleV((h["op"],), "list"), st
             else:
                 yield self.unk(f"param attribute {attr}"), st
             return
